@@ -148,6 +148,11 @@ def roundtrip_case(ctx, seed, real_file=False, charset='latin1'):
     fmt, div, tracks = genfile.rand_file_events(rng, EOT_MODES)
     case = lambda: {'kind': 'roundtrip', 'seed': seed, 'real_file': real_file, 'charset': charset}  # noqa: E731
     mid = genfile.midifile_of(fmt, div, tracks, charset)
+    if rng.random() < 0.1:
+        # elsewhere in the program a caller has been editing what the library's helpers handed back (the list from bytes() is
+        # the caller's to extend, a dict() to clear ...): nothing of that may show in a file written afterwards
+        from .. import gen
+        gen.run_quietly(gen.perturbations()[0][1])
     frozen = rng.random() < 0.2
     if frozen:
         from .. import abuse
